@@ -28,7 +28,7 @@ Record rsu_lay : Type := {
 }.
 Definition render_rsu (st : bool) (r : rsu_lay) : text :=
   sty st rsu0_0 rsu1_0 ++ rl_sym r ++ sty st rsu0_1 rsu1_1 ++ rl_sym r ++ sty st rsu0_2 rsu1_2
-  ++ rl_award r ++ sty st rsu0_3 rsu1_3 ++ date_text 45 (rl_date r) ++ sty st rsu0_4 rsu1_4
+  ++ 82 :: rl_award r ++ sty st rsu0_3 rsu1_3 ++ date_text 45 (rl_date r) ++ sty st rsu0_4 rsu1_4
   ++ rl_released r ++ sty st rsu0_5 rsu1_5 ++ rl_fmv r ++ sty st rsu0_6 rsu1_6
   ++ rl_sale r ++ sty st rsu0_7 rsu1_7 ++ rl_released r ++ sty st rsu0_8 rsu1_8
   ++ rl_sold r ++ sty st rsu0_9 rsu1_9 ++ rl_issued r ++ sty st rsu0_10 rsu1_10
